@@ -237,6 +237,11 @@ def _assemble(I, node, pieces, st, acc=None):
         yield from _assemble(I, node, pieces[1:], st, s_concat(acc, SStr.const(p[1])))
         return
     _, v, conv, flags, width = p
+    if isinstance(v, SIte):
+        # lazily chosen value (an Optional field): format each alternative
+        for st1, v1 in I.force(st, v):
+            yield from _assemble(I, node, [('arg', v1, conv, flags, width)] + list(pieces[1:]), st1, acc)
+        return
     if conv in 'dix':
         if not isinstance(v, (SInt, SBool)):
             yield st, I.exc('TypeError', node)
